@@ -27,7 +27,12 @@ func checkC15(c *Ctx) {
 	c.Decides("SKELETON: copyTreeRecur copies the child node and the branch it descends through, attaches only copies to the copy, and recurses over the child's branches in order; Clone/SubTree start from a new Tree, never share the name index, and re-index the copy")
 	c.Decides("LF: InsertIdenticalTip gives every branch it creates the constant length 0 and writes no length of a pre-existing branch; GraftTreeOnTip/Merge write no length/support at all; removeSingleNodesRecur gives the surviving branch child+parent length (only when both are present) and max(child,parent) support")
 	c.Decides("ERRFLOW/GF: Merge returns a non-nil error iff one tree is unrooted, and for every name of one index found in the other; PAIR: the adjacency edits of these functions are two-sided")
+	c.Decides("LASTLINE: the list-file readers shared by the commands (cmd/root.go, io/fileutils, io/utils) do not read lines with bufio ReadString/ReadBytes unless they handle io.EOF themselves: these return the last unterminated line together with io.EOF, which the `for err == nil` line loops never look at")
+	c.lastLineIn("add exactly the requested tips", "cmd/repopulate.go")
 	c.DoesNotDecide("path-length preservation as such, exact placement of grafted/inserted tips, independence under arbitrary later edits beyond 'no shared mutable storage at copy time'")
+	c.Decides("ERR-DEAD: in tree/tree.go, the graft/merge/repopulate/subtree commands and the command helpers of cmd/root.go (the group-file reader included), the error a call stores in a variable is read before that variable is assigned again on every path: a request that cannot be read is reported, not carried out as an empty one")
+	c.Decides("ERR-SWALLOW: in the same files, a branch entered because an error value is non-nil does not leave the function with a nil error (no `return nil`, no bare return with an unset named result)")
+	c.errDeadIn("add exactly the requested tips", 40, "tree/tree.go", "cmd/root.go", "cmd/repopulate.go", "cmd/graft.go", "cmd/merge.go", "cmd/subtree.go", "cmd/collapsesingle.go")
 	c.copyFields("Node", "CopyNode")
 	c.copyFields("Edge", "CopyEdge")
 	c.cloneSkeleton()
